@@ -23,8 +23,10 @@ GPaths == { [p |-> "a", gen |-> FALSE], [p |-> "d/a", gen |-> FALSE], [p |-> "d/
             [p |-> "d/.datamon/x", gen |-> FALSE], [p |-> ".checkpoints-old/x", gen |-> FALSE],
             \* a sibling that differs from "a" only by leading dots
             [p |-> ".a", gen |-> FALSE] }
+\* ("lat" / "latest" and "a_b" / "a_b2": names that are prefixes of one another)
 GLabels == { [n |-> "v1.2.3", semver |-> TRUE], [n |-> "latest", semver |-> FALSE],
-             [n |-> "a_b", semver |-> FALSE], [n |-> "1.0.0", semver |-> TRUE] }
+             [n |-> "a_b", semver |-> FALSE], [n |-> "1.0.0", semver |-> TRUE],
+             [n |-> "lat", semver |-> FALSE], [n |-> "a_b2", semver |-> FALSE] }
 
 R(S) == RandomElement(S)
 
